@@ -714,6 +714,58 @@ def run_two_keys(params, known):
                 samples=[], verdicts={}, report_keys=['verdicts'])
 
 
+def run_key_history(params, known):
+    '''One long-lived receiver; before each of three receptions of bundles protected with COSE_Mac0 its key under
+    the key identifier is the right one, another one, or absent (27 histories).  Each reception is judged on its
+    own: delivered exactly when the right key is held at that moment, whatever was held and used before.'''
+    import itertools
+    from .. import env as _env
+    _env.load_bp()
+    global CREATION
+    violations = []
+    kinds = set()
+    keys = []
+    bundles = []
+    try:
+        for seq in (31, 32, 33):
+            CREATION = (760000000000, seq)
+            bundles.append(source_protect('mac0', [1]))
+    finally:
+        CREATION = (760000000000, 3)
+    count = 0
+    for hist in itertools.product(('right', 'wrong', 'absent'), repeat=3):
+        count += 1
+        case = dict(key_before_each_reception=list(hist))
+        world = verifier('none')
+        cose = world.cose()
+        want = []
+        for (k, state) in enumerate(hist):
+            if state == 'absent':
+                cose.sym_key_store.pop(KID, None)
+            else:
+                cose.sym_key_store[KID] = sym_key(KEY if state == 'right' else WRONG_KEY, ['MacCreateOp', 'MacVerifyOp'], 'HMAC256')
+            if state == 'right':
+                want.append(31 + k)
+            world.receive(bundles[k])
+            world.quiesce()
+        keys.append('/'.join(hist))
+        got = sorted(d['ts'][1] for d in world.probe.seen)
+        found = None
+        if world.escaped:
+            found = ('exception-escaped-idle-callback', '%s: %s' % (world.escaped[-1][0], world.escaped[-1][2]))
+        elif [s2 for s2 in got if s2 not in want]:
+            found = ('verified-without-the-right-key', 'delivered %r, right key held for %r' % (got, want))
+        elif got != want:
+            found = ('unmodified-bundle-rejected', 'delivered %r, right key held for %r' % (got, want))
+        if found and found[0] not in kinds:
+            kinds.add(found[0])
+            v = Violation(PROP, 'integrity', found[0], dict(), '%r: %s' % (case, found[1])).as_dict()
+            v['case'] = dict(source='mac0', protected='', altered='', alteration='key history', keymode='history', with_ca=False, **case)
+            violations.append(v)
+    return dict(name=params['name'], evaluations=count, nontrivial_keys=['key-history:%s' % k for k in keys], violations=violations, known=[],
+                samples=[], verdicts={}, report_keys=['verdicts'])
+
+
 def run_cert_validity(params, known):
     '''The signer's certificate is judged at the time the bundle was created: two certificates bound to
     the security source, one valid until the end of April 2024 and one from the middle of May 2024 on, each
@@ -840,6 +892,7 @@ def scenarios(tier):
     out = []
     pems = make_pems()
     out.append(dict(name='mac0-two-keys', kind='enum', runner='run_two_keys', params=dict(name='mac0-two-keys'), weight=1))
+    out.append(dict(name='mac0-key-history', kind='enum', runner='run_key_history', params=dict(name='mac0-key-history'), weight=1))
     out.append(dict(name='sign1-certificate-validity', kind='enum', runner='run_cert_validity', params=dict(name='sign1-certificate-validity', pems=pems), weight=2))
     out.append(dict(name='sign1-key-shapes', kind='enum', runner='run_key_shapes', params=dict(name='sign1-key-shapes', pems=pems), weight=2))
     out.append(dict(name='sign1-wrong-certificate', kind='enum', runner='run_wrong_cert',
@@ -902,6 +955,12 @@ def evidence(tier, seed, scens, results, wall_s):
 
 def replay_case(body, verbose=False):
     case = body['case']
+    if case.get('alteration') == 'key history':
+        res = run_key_history(dict(name='mac0-key-history'), None)
+        for v in res['violations']:
+            print('%s: %s' % (v['kind'], v['detail'][:400]))
+        print('%d histories, %d kinds of violation' % (res['evaluations'], len(res['violations'])))
+        return 1 if res['violations'] else 0
     if case.get('alteration') == 'certificate validity':
         # keys and certificates are derived from fixed values: the scenario itself is run again
         res = run_cert_validity(dict(name='sign1-certificate-validity', pems=make_pems()), None)
